@@ -123,7 +123,9 @@ def run(tier):
                             beh = "run-timeout"
                     else:
                         beh = "link-failed"
-                o = (p.returncode, p.stderr.decode("utf-8", "replace"), "same-as-first-three" if (rep >= 3 and not key.startswith("modules:")) else beh)
+                # an internal error prints a Go stack trace with addresses: not an observable of the property (only the message before it)
+                err_text = p.stderr.decode("utf-8", "replace").split("StackTrace:")[0]
+                o = (p.returncode, err_text, "same-as-first-three" if (rep >= 3 and not key.startswith("modules:")) else beh)
             except subprocess.TimeoutExpired:
                 o = ("timeout",)
             if rep >= 3 and not key.startswith("modules:"):
